@@ -757,6 +757,41 @@ func (g *genState) matchFields(label string, refs []string) (*Field, *Field) {
 			pr.List = true
 			nk = rapid.SampledFrom([]int{1, 2, 3, 4, 5, 6, 7, 10, 15}).Draw(t, pl+"_nkeys")
 		}
+		// key lists that look like a range of consecutive numbers but are not written as one:
+		// shuffled, or with the range's end points first and last and an outlier in between
+		if !strKey && pr.List && nk >= 3 && nk <= 7 && rapid.IntRange(0, 1).Draw(t, pl+"_rangelike") == 0 {
+			base := uint64(rapid.IntRange(1, 60).Draw(t, pl+"_rbase"))
+			var ks []uint64
+			for j := 0; j < nk; j++ {
+				ks = append(ks, base+uint64(j))
+			}
+			if rapid.IntRange(0, 3).Draw(t, pl+"_rshuffle") == 0 {
+				perm := rapid.Permutation(seq(nk)).Draw(t, pl+"_rperm")
+				sh := make([]uint64, nk)
+				for a, b := range perm {
+					sh[a] = ks[b]
+				}
+				ks = sh
+			} else {
+				// [10, 50, 11, 12]: first and last span exactly len-1, one member lies outside
+				out := base + uint64(nk) + uint64(rapid.IntRange(1, 40).Draw(t, pl+"_routlier"))
+				mid := []uint64{out}
+				for j := 1; j <= nk-3; j++ {
+					mid = append(mid, base+uint64(j))
+				}
+				ks = append(append([]uint64{base}, mid...), base+uint64(nk)-1)
+				if rapid.IntRange(0, 3).Draw(t, pl+"_rdesc") == 0 {
+					ks[0], ks[len(ks)-1] = ks[len(ks)-1], ks[0]
+				}
+			}
+			for _, v := range ks {
+				if s := fmt.Sprint(v); !usedKeys[s] {
+					usedKeys[s] = true
+					pr.Keys = append(pr.Keys, s)
+				}
+			}
+			nk = 0
+		}
 		for j := 0; j < nk; j++ {
 			var ks string
 			for try := 0; try < 50; try++ {
@@ -838,6 +873,61 @@ func AddSecondMatch(t *rapid.T, p *Program) {
 		k.Fields = append(k.Fields, m2)
 		return
 	}
+}
+
+// AddInlineChain appends a chain root -> Mid (object member) -> inline object -> Leaf (object
+// member): the leaf packet is named only inside an inline object of a packet the root refers to.
+func AddInlineChain(p *Program) {
+	root := p.RootPacket()
+	if root == nil || p.PacketByName("Zqleaf") != nil {
+		return
+	}
+	leaf := &Packet{Name: "Zqleaf", Fields: []*Field{{Kind: KScalar, Type: "u16", Name: "Zqlv"}}}
+	inner := &Packet{Name: "Zqinner", Fields: []*Field{{Kind: KScalar, Type: "u8", Name: "Zqiv"}, {Kind: KObj, Ref: "Zqleaf", Name: "Zqlf"}}}
+	mid := &Packet{Name: "Zqmid", Fields: []*Field{{Kind: KInline, Name: "Zqinner", Inline: inner}, {Kind: KScalar, Type: "u8", Name: "Zqmv"}}}
+	p.Packets = append(p.Packets, mid, leaf)
+	root.Fields = append(root.Fields, &Field{Kind: KObj, Ref: "Zqmid", Name: "Zqmd"})
+}
+
+// AddSecondMatchSameKey adds, to a packet that has a match field on an integer key, a second
+// match field selected by the SAME key field; its table has the first table's keys but one and
+// one key of its own. (Which of the two a codec honours is not the point: the model holds both.)
+func AddSecondMatchSameKey(t *rapid.T, p *Program) bool {
+	for _, k := range p.Packets {
+		var m *Field
+		for _, f := range k.Fields {
+			if f.Kind == KMatch {
+				m = f
+			}
+		}
+		if m == nil {
+			continue
+		}
+		kf := k.FieldByName(m.Key)
+		if kf == nil || kf.Kind != KScalar {
+			continue
+		}
+		m2 := &Field{Kind: KMatch, Name: m.Name + "Bis", Key: m.Key}
+		used := map[string]bool{}
+		for i, pr := range m.Pairs {
+			for _, key := range pr.Keys {
+				used[key] = true
+			}
+			if i == 0 && len(m.Pairs) > 1 {
+				continue // the first table's first pair is missing from the second table
+			}
+			m2.Pairs = append(m2.Pairs, Pair{Keys: append([]string{}, pr.Keys[:1]...), Target: pr.Target})
+		}
+		for own := 1; own < 120; own++ {
+			if s := fmt.Sprint(own); !used[s] {
+				m2.Pairs = append(m2.Pairs, Pair{Keys: []string{s}, Target: m.Pairs[0].Target})
+				break
+			}
+		}
+		k.Fields = append(k.Fields, m2)
+		return true
+	}
+	return false
 }
 
 // ShareInline copies one packet's inline object (same name, same fields) into another packet,
